@@ -137,6 +137,36 @@ func ZZ_C11_RoundTrip() {
 		check(dst.policy.slru.probation, LIST_PROBATION)
 		check(dst.policy.slru.protected, LIST_PROTECTED)
 	}
+	// whatever is dropped for lack of room is dropped from the least recently used end of its region:
+	// a restored entry never has a more recent, still live, unrestored neighbour in the saved region
+	for _, a := range saved {
+		for _, b := range saved {
+			if a.region == b.region && a.order < b.order {
+				_, okA := dst.shards[zzIndex(dst, a.key)].hashmap[a.key]
+				_, okB := dst.shards[zzIndex(dst, b.key)].hashmap[b.key]
+				liveA := vfOr(a.expire == 0, a.expire >= now)
+				vfAssert("kept-from-most-recent-end", vfImplies(vfAnd(okB, liveA), okA))
+			}
+		}
+	}
+	// and what is restored keeps its relative order (checked above for the same size; here for any size)
+	if !same {
+		checkAny := func(l *List[uint64, uint64]) {
+			lastOrder := map[uint8]int{}
+			for e := l.Front(); e != nil; e = e.Next(l.listType) {
+				for _, sv := range saved {
+					if sv.key == e.key {
+						prev, seen := lastOrder[sv.region]
+						vfAssert("order-within-saved-region-preserved", !seen || sv.order > prev)
+						lastOrder[sv.region] = sv.order
+					}
+				}
+			}
+		}
+		checkAny(dst.policy.window)
+		checkAny(dst.policy.slru.probation)
+		checkAny(dst.policy.slru.protected)
+	}
 	vfNote("smallerTarget", vfIte64(cap2 < capv, 1, 0))
 	vfNote("nonUnitCosts", int64(vfConfig("COSTS", 0)))
 	zzAccounted(dst, "restored")
